@@ -32,7 +32,14 @@ import (
 	"verif/tools/instr"
 )
 
-const repoDir = "/repo"
+// repoDir is the tree under test: /repo, or $VERIF_REPO (used by the seeded
+// self-test, which checks patched scratch copies and never touches /repo).
+var repoDir = func() string {
+	if d := os.Getenv("VERIF_REPO"); d != "" {
+		return d
+	}
+	return "/repo"
+}()
 
 // verifDir is where evidence/, replays/, sim/ and known_findings.json live: the
 // parent of the directory holding this executable (so that a snapshot of /verif
@@ -529,6 +536,9 @@ func main() {
 		}
 		os.Exit(doReplay(os.Args[2]))
 	case "selftest":
+		if len(os.Args) > 2 && os.Args[2] == "seeded" {
+			os.Exit(selftestSeeded(os.Args[3:]))
+		}
 		os.Exit(selftest(os.Args[2:]))
 	}
 	id := os.Args[1]
@@ -868,7 +878,7 @@ func check(id, tier string, workers int, wallOverride float64) int {
 			unreached = append(unreached, p)
 		}
 	}
-	if agg.Runs > 0 {
+	if agg.Runs > 0 && os.Getenv("VERIF_NO_EVIDENCE") == "" {
 		writeEvidence(id, tier, seed, cfg, agg, len(distinct), nviol, wallS, buildS, workers, realC, stubC, unreached, len(knownLines), raceRuns, raceSteps, raceWorkers)
 	}
 	fmt.Printf("vcheck: %s %s: %d runs (%d non-trivial, %d distinct), %d steps, %.1fs simulated, %d truncated, violations=%d known=%d, %.1fs wall\n",
